@@ -241,7 +241,8 @@ class World:
                 'pool_initialized_while_others_hold_ips'), 0)
             self.faults = dict.fromkeys((
                 'svc_killed_mid_request', 'svc_crash', 'command_failed',
-                'owner_vanished', 'lookup_failed'), 0)
+                'owner_vanished', 'lookup_failed', 'client_op_preempted',
+                'svc_start_preempted'), 0)
         else:
             self.probes = dict.fromkeys((
                 'svc_restarts', 'stale_requests_reclaimed',
@@ -256,7 +257,8 @@ class World:
                 'start_killed', 'finish_killed', 'finish_killed_then_repeated',
                 'command_failed', 'eaddrinuse', 'resolver_failed',
                 'presence_failed', 'io_error', 'io_error_in_start',
-                'io_error_in_finish'), 0)
+                'io_error_in_finish', 'svc_restart', 'client_op_preempted',
+                'svc_start_preempted'), 0)
         # -- fakes
         self.netdev = netshims.FakeNetdev(seam, subproc, EXT_DEV,
                                           real=real_netdev)
@@ -344,6 +346,18 @@ class World:
         self.leaky = set()     # requests that held two ips (after a fault)
         self.unprocessed_del = set()   # deletions the service has not seen
         self.raced = set()     # ids requested again before that (provenance)
+        # within-operation pre-emption (op field "preempt"): complete
+        # operations of other actors before the k-th step of this op
+        self.preempt = None
+        self.preempt_outer = None
+        self.preempt_ran = 0
+        self.preempt_touched = set()
+        self.del_in_start = set()   # provenance, like `raced`
+        self.in_preempt = False
+        self.init_steps = 0    # steps the last service start made before
+        #                        its replay of the existing requests
+        self._step_log = seam.on_step
+        seam.on_step = self._on_step
 
     # -- plumbing
     @staticmethod
@@ -382,9 +396,23 @@ class World:
         # a finish works with (any file; the op says which call and how)
         iof = op.get('io_fault') if op['op'] in self.IO_FAULT_OPS else None
         self.io.begin((int(iof['at']), int(iof['errno'])) if iof else None)
+        self.preempt = None
+        self.preempt_ran = 0
+        self.preempt_touched = set()
+        if op['op'] in self.PREEMPTIBLE and op.get('preempt'):
+            self.preempt = {}
+            for item in op['preempt']:
+                self.preempt.setdefault(int(item['at']), []).extend(
+                    item['ops'])
+            self.preempt_outer = op
         try:
             getattr(self, 'op_' + op['op'])(op)
         finally:
+            self.preempt = None
+            if self.preempt_ran:
+                self._bump(self.faults, 'svc_start_preempted'
+                           if op['op'] in ('svc_start', 'svc_restart')
+                           else 'client_op_preempted')
             self.sock.failing = set()
             if self.sock.resolve_failures:
                 self._bump(self.faults, 'resolver_failed')
@@ -412,6 +440,82 @@ class World:
                        self.cont.items()),
                 self.impl is not None,
                 sorted((k, sorted(v)) for k, v in self.ipt.sets.items())]
+
+    # ------------------------------------------------------------------
+    # within-operation pre-emption.  The steps of an op (mutating file-system
+    # calls and external commands, the points at which a kill can land) are
+    # also the points at which another process can run: "preempt": [{"at": k,
+    # "ops": [...]}] executes complete operations of OTHER actors before the
+    # k-th step of the op.  Outer op -> what may run inside it:
+    PREEMPTIBLE = {
+        # a client's put() / delete() between two of its file-system steps:
+        # the service works, other clients register / unregister
+        'net_put': ('svc_step', 'net_put', 'net_del'),
+        'net_del': ('svc_step', 'net_put', 'net_del'),
+        'c_finish': ('svc_step',),
+        # a service start (initialize, replay of the existing requests,
+        # synchronize) between two of its steps: clients act
+        'svc_start': ('net_put', 'net_del', 'c_finish'),
+        'svc_restart': ('net_put', 'net_del', 'c_finish'),
+    }
+
+    @staticmethod
+    def _actor_of(op):
+        if op['op'] in ('svc_step', 'svc_start', 'svc_restart'):
+            return 'svc'
+        return op.get('owner') or op.get('name')
+
+    def _on_step(self, kind, what):
+        # (called by Seam.tick before the step is made; the I/O points of
+        # netshims.SeamIO report here too and are not steps)
+        if self.preempt and not kind.startswith('io:') and \
+                not self.in_preempt and not self.in_nested and \
+                self.violation is None:
+            nested = self.preempt.pop(self.seam.steps, None)
+            if nested:
+                self._run_preempt(self.seam.steps, nested)
+        if self._step_log is not None:
+            self._step_log(kind, what)
+
+    def _run_preempt(self, at, nested):
+        outer = self.preempt_outer
+        allowed = self.PREEMPTIBLE[outer['op']]
+        seam = self.seam
+        saved = (seam.crash_at, seam.fail_at, seam.steps, seam.commands,
+                 seam.stat_fault, seam.failed, seam.crashed, self.ipt.actor,
+                 self.sock.actor, self.sock.failing)
+        # the others are other processes: the kill / failure points of the
+        # pre-empted one do not apply to them
+        seam.crash_at = seam.fail_at = seam.stat_fault = None
+        self.sock.failing = set()
+        io_saved = self.io.suspend()
+        self.in_preempt = True
+        try:
+            for nop in nested:
+                if self.violation is not None:
+                    break
+                if not isinstance(nop, dict) or nop.get('op') not in allowed \
+                        or self._actor_of(nop) == self._actor_of(outer):
+                    continue
+                if nop['op'] == 'c_finish' and \
+                        self.prop != 'C16' or \
+                        nop['op'].startswith('net_') and self.prop != 'C14':
+                    continue
+                seam.steps = seam.commands = 0
+                seam.failed = seam.crashed = False
+                self.preempt_ran += 1
+                self.preempt_touched.add(self._actor_of(nop))
+                if nop['op'] == 'net_del' and outer['op'] in (
+                        'svc_start', 'svc_restart'):
+                    self.del_in_start.add(nop['owner'])
+                self.log.ev('preempt', at, nop)
+                getattr(self, 'op_' + nop['op'])(nop)
+        finally:
+            self.in_preempt = False
+            (seam.crash_at, seam.fail_at, seam.steps, seam.commands,
+             seam.stat_fault, seam.failed, seam.crashed, self.ipt.actor,
+             self.sock.actor, self.sock.failing) = saved
+            self.io.resume(io_saved)
 
     # ------------------------------------------------------------------
     # owners
@@ -1059,7 +1163,9 @@ class World:
         watcher = None
         try:
             # LinuxResourceService._run passes its realpath-resolved _dir
+            steps0 = self.seam.steps
             impl.initialize(self.svc._dir)
+            self.init_steps = self.seam.steps - steps0
             watcher = simkit.with_os_resource(
                 lambda: dirwatch.DirWatcher(self.rsrc_dir))
             watcher.on_created = lambda p: self.svc._on_created(impl, p)
@@ -1082,7 +1188,15 @@ class World:
             self.log.ev('svc_start', 'died', type(err).__name__)
             if watcher is not None:
                 watcher.inotify.close()
-            if not self.seam.failed:
+            if self.preempt_ran and isinstance(err, FileNotFoundError) and \
+                    not self.seam.failed:
+                # a client unregistered a request while the starting service
+                # was handling it (its reply cannot be written): the service
+                # process ends and is started again - not a statement of
+                # C14 / C16
+                self._bump(self.probes,
+                           'svc_start_died_request_vanished_under_it')
+            elif not self.seam.failed:
                 self.fail('%s:netsvc-start-raised:%s' % (
                     self.prop, type(err).__name__),
                           'service start raised %r without an injected '
@@ -1098,7 +1212,8 @@ class World:
             vips = netcheck.read_links(self.vips_dir)
             still = set(self._live_requests())
             for rid, ip in sorted(held.items()):
-                if rid not in still:
+                if rid not in still or rid in self.preempt_touched:
+                    # (or: unregistered / registered again during the start)
                     continue
                 self.probes['net_held_ip_checked_after_restart'] += 1
                 if vips.get(ip) != rid:
@@ -1111,7 +1226,23 @@ class World:
                                   ip, rid, ' (now held by %s)' % vips[ip]
                                   if ip in vips else ''))
                     return
-        self._netsvc_check(op, synced=True, exempt=self.seam.failed)
+        # (clients that acted during the start left events the service has
+        # not processed yet: the "synchronized" clauses do not apply)
+        self._netsvc_check(op, synced=not self.preempt_ran,
+                           exempt=self.seam.failed)
+
+    def op_svc_restart(self, op):
+        """The service process is replaced (watchdog kill, upgrade): down
+        and up again in one op; a start that ends because a request vanished
+        under it is repeated (supervisor)."""
+        if self.impl is not None:
+            self._svc_down()
+            self._bump(self.faults, 'svc_restart')
+        self.op_svc_start(op)
+        if self.impl is None and self.violation is None and \
+                self.preempt_ran and not self.seam.crashed:
+            self.preempt = None
+            self.op_svc_start(op)
 
     def op_svc_crash(self, op):
         if self.impl is None:
@@ -1172,6 +1303,9 @@ class World:
         # waiting process do not apply to it
         seam.crash_at = seam.fail_at = seam.stat_fault = None
         io_saved = self.io.suspend()
+        # (nor do its pre-emption points: the steps counted are the waiting
+        # process's own)
+        pre_saved, self.preempt = self.preempt, None
         try:
             for _ in range(200):
                 if os.path.exists(filename):
@@ -1190,6 +1324,7 @@ class World:
             (seam.crash_at, seam.fail_at, seam.steps, seam.commands,
              seam.stat_fault, self.ipt.actor, self.sock.actor) = saved
             self.io.resume(io_saved)
+            self.preempt = pre_saved
 
     def svc_pending(self):
         if self.impl is None:
@@ -1257,6 +1392,10 @@ class World:
         holders = {}
 
         def prov(*rids):
+            if any(r in self.del_in_start for r in rids):
+                # (unregistered by its client between two steps of a
+                # service start, registered again later)
+                return ':request-deleted-during-service-start'
             if any(r in self.raced for r in rids):
                 return ':id-requested-again-before-its-delete-was-processed'
             return ''
@@ -1448,6 +1587,10 @@ class World:
         cont = self.cont.get(name)
         if cont is None or name not in self.owners:
             return
+        if cont['finished'] and not self.in_preempt:
+            # (the repeated-finish clause compares the whole host state:
+            # only a first finish is pre-empted)
+            self.preempt = None
         if cont['state'] == 'requested':
             # finished without ever being started: it will not start later
             cont['state'] = 'aborted'
@@ -1646,6 +1789,11 @@ class Generator:
         # (a stream of its own: the other decisions of a seed are what they
         # were before this fault kind existed)
         self.irng = streams.get('iofault')
+        # within-operation pre-emption, service restarts of C16 (likewise)
+        self.prng = streams.get('preempt')
+        self.reput = None
+        self.count = 0
+        self.queue = []      # staged scenario: callables (world) -> op | None
         table = C14_WEIGHTS if prop == 'C14' else C16_WEIGHTS
         self.weights = [(k, w * config['wmul'].get(k, 1.0)) for k, w in table]
         self.n = 0
@@ -1657,6 +1805,165 @@ class Generator:
         return 0
 
     def next_op(self, world):
+        self.count += 1
+        staged = self.config.get('staged')
+        if staged and self.count == staged['at']:
+            getattr(self, 'stage_' + staged['name'])(world)
+        while self.queue:
+            op = self.queue.pop(0)(world)
+            if op is not None:
+                return op
+        op = self._preempt_first(world)
+        if op is not None:
+            return op
+        op = self._next_op(world)
+        if op['op'] in World.PREEMPTIBLE:
+            self._with_preempt(world, op)
+        return op
+
+    def _preempt_first(self, world):
+        prng = self.prng
+        if self.prop == 'C16':
+            if world.impl is not None and \
+                    prng.random() < self.config.get('p_svc_restart', 0.0):
+                op = {'op': 'svc_restart', 'ord': self.order()}
+                self._with_preempt(world, op)
+                return op
+            return None
+        name, self.reput = self.reput, None
+        if name is not None and name in world.owners and \
+                prng.random() < 0.6:
+            # the container whose request was just deleted starts again
+            # under the same id before the service has caught up
+            return {'op': 'net_put', 'owner': name,
+                    'env': prng.choice(ENVS)}
+        return None
+
+    # -- staged scenarios (config['staged']): the setting is built, the
+    # decisive choices (which step, how far the service gets) stay seeded
+    def stage_delete_split_reput(self, world):
+        """C14: a finishing container's delete() is caught between two of
+        its steps while the service handles other events; the container is
+        started again under the same id before the service caught up; one
+        more request."""
+        prng = self.prng
+        x, z, y = (self._new_name()[2] for _ in range(3))
+        env = prng.choice(ENVS)
+        step = lambda _w: {'op': 'svc_step', 'ord': 0}
+        fixed = lambda op: (lambda _w: op)
+        if world.impl is None:
+            self.queue.append(fixed({'op': 'svc_start', 'ord': 0}))
+        for name in (x, z):
+            self.queue.append(fixed({'op': 'owner_add', 'name': name}))
+            self.queue.append(fixed({'op': 'net_put', 'owner': name,
+                                     'env': prng.choice(ENVS)}))
+        self.queue += [step] * 4
+        if prng.random() < 0.8:
+            self.queue.append(fixed({'op': 'net_del', 'owner': z}))
+        self.queue.append(fixed({
+            'op': 'net_del', 'owner': x, 'preempt': [{
+                'at': prng.randint(2, 3),
+                'ops': [{'op': 'svc_step'}] * prng.randint(1, 2)}]}))
+        if prng.random() < 0.3:
+            self.queue.append(step)
+        self.queue.append(fixed({'op': 'net_put', 'owner': x, 'env': env}))
+        self.queue += [step] * prng.randint(1, 2)
+        self.queue.append(fixed({'op': 'owner_add', 'name': y}))
+        self.queue.append(fixed({'op': 'net_put', 'owner': y,
+                                 'env': prng.choice(ENVS)}))
+        self.queue += [step] * 2
+
+    def stage_restart_during_finish(self, world):
+        """C16: the network service is replaced while a started container
+        is being finished (the finish runs between two steps of the replay
+        of the existing requests)."""
+        app, task, name = self._new_name()
+        man = self._manifest(app, task, name.rsplit('-', 1)[1])
+        man['shared_network'] = False
+        self.pids += 1
+        pid = self.pids
+        self.queue.append(lambda _w: {'op': 'c_request', 'name': name,
+                                      'manifest': man})
+        self.queue.append(lambda _w: {
+            'op': 'c_start', 'name': name, 'pid': pid,
+            'rkey': self.prng.randint(1, 1 << 30), 'ord': 0})
+
+        def restart(wld):
+            nlive = len(wld._live_requests())
+            return {'op': 'svc_restart', 'ord': self.order(), 'preempt': [{
+                'at': wld.init_steps + self.prng.randint(1, 4 * nlive + 2),
+                'ops': [{'op': 'c_finish', 'name': name}]}]}
+        self.queue.append(restart)
+
+    def _with_preempt(self, world, op):
+        """Operations of other actors between two steps of this op."""
+        prng = self.prng
+        kind = op['op']
+        if prng.random() >= self.config.get('p_preempt', 0.0) or \
+                any(k in op for k in ('crash_at', 'fail_at', 'stat_fault',
+                                      'io_fault')):
+            return
+        if kind in ('svc_start', 'svc_restart'):
+            nlive = len(world._live_requests())
+            if not nlive:
+                return
+            if prng.random() < 0.85:
+                # in the replay of the existing requests (about four steps
+                # per request) or the synchronisation after it
+                at = world.init_steps + prng.randint(1, 4 * nlive + 2)
+            else:
+                at = prng.randint(1, max(1, world.init_steps))
+            if self.prop == 'C16':
+                names = sorted(n for n, c in world.cont.items()
+                               if n in world.owners and
+                               c['state'] != 'requested')
+                todo = [n for n in names if not world.cont[n]['finished']]
+                if not names:
+                    return
+                nested = [{'op': 'c_finish', 'name': prng.choice(
+                    todo if todo and prng.random() < 0.85 else names)}]
+            else:
+                live = world._live_requests()
+                if prng.random() < 0.6:
+                    nested = [{'op': 'net_del', 'owner': prng.choice(live)}]
+                else:
+                    owners = sorted(world.owners)
+                    if not owners:
+                        return
+                    nested = [{'op': 'net_put', 'owner': prng.choice(owners),
+                               'env': prng.choice(ENVS)}]
+        elif kind == 'c_finish':
+            cont = world.cont[op['name']]
+            if cont['finished'] or cont['state'] != 'started':
+                return
+            total = self._finish_steps(cont)
+            # (the request is deleted by the last steps of a finish)
+            at = max(1, total - prng.randint(0, 3)) \
+                if prng.random() < 0.6 else prng.randint(1, total)
+            nested = [{'op': 'svc_step'}]
+        else:
+            at = prng.randint(1, 4 if kind == 'net_put' else 3)
+            others = [n for n in world._live_requests()
+                      if n != op['owner'] and n in world.owners]
+            nested = []
+            r = prng.random()
+            if others and r < 0.5:
+                nested.append({'op': 'net_del',
+                               'owner': prng.choice(others)})
+            elif r < 0.65:
+                owners = [n for n in sorted(world.owners)
+                          if n != op['owner']]
+                if owners:
+                    nested.append({'op': 'net_put',
+                                   'owner': prng.choice(owners),
+                                   'env': prng.choice(ENVS)})
+            if not nested or prng.random() < 0.85:
+                nested += [{'op': 'svc_step'}] * prng.randint(1, 2)
+            if kind == 'net_del':
+                self.reput = op['owner']
+        op['preempt'] = [{'at': at, 'ops': nested}]
+
+    def _next_op(self, world):
         for _ in range(30):
             kind = rngmod.weighted(self.rng, self.weights)
             if kind == 'svc_start' and world.impl is not None:
@@ -2303,6 +2610,14 @@ def make_config(prop, tier, rng):
         wmul['vip_init'] = rng.choice([1.0, 4.0, 8.0])
     # transient open()/read errors in starts and finishes (C16; drawn last)
     cfg['p_io_fault'] = rng.choice([0.0, 0.1, 0.25])
+    # within-operation pre-emption of client put / delete / finish and of
+    # service starts; restarts of the service in C16 runs (drawn last)
+    cfg['p_preempt'] = rng.choice([0.0, 0.15, 0.3])
+    cfg['p_svc_restart'] = rng.choice([0.0, 0.03, 0.08])
+    if rng.random() < 0.05:
+        cfg['staged'] = {'name': 'delete_split_reput' if prop == 'C14' else
+                                 'restart_during_finish',
+                         'at': rng.randint(1, max(1, cfg['n_ops'] - 20))}
     return cfg
 
 
